@@ -220,6 +220,10 @@ fn skewed<S: SX, V: VX>(ctx: &mut Ctx, thorough: bool) {
             ("all-in-last-class", 1000, Box::new(move |_i: usize| (1u64 << cb) - 1)),
             ("two-classes-3000", 3000, Box::new(move |i: usize| if i % 3 == 0 { 0 } else { (1u64 << cb) - 1 })),
             ("spread-2500", 2500, Box::new(move |i: usize| mix(i as u64) & ((1u64 << cb) - 1))),
+            // buckets holding exact multiples of the 1024-pair read buffer of the on-disk splitter
+            ("all-in-class-0-exactly-1024", 1024, Box::new(|_i: usize| 0u64)),
+            ("all-in-last-class-exactly-2048", 2048, Box::new(move |_i: usize| (1u64 << cb) - 1)),
+            ("two-classes-exactly-1024-and-3072", 4096, Box::new(move |i: usize| if i % 4 == 0 { 0 } else { (1u64 << cb) - 1 })),
         ] {
             for offline in [false, true] {
                 if !ctx.case(|| format!("SigStore S={} V={} bucket_bits={b} max_shard_bits={m} shard_bits={s} offline={offline} skew={nm} n={n}", S::NAME, V::NAME)) {
